@@ -560,11 +560,21 @@ def report_grouped(ctx, label, cases, results, fails, check, tagger, rounds=4, m
     for idx, kind, msg in fails:
         groups.setdefault((tagger(cases[idx][0]), signature(kind, msg)), []).append((idx, kind, msg))
     ctx.cover[f'{label}_failure_groups'] = {f'{t}|{s}': len(v) for (t, s), v in groups.items()}
-    for gi, ((tags, sig), members) in enumerate(sorted(groups.items())):
+    import re
+    from .core import load_known
+    known = [f.get('match', '') for f in load_known()]
+    if ctx.quick:
+        rounds, max_groups = min(rounds, 2), min(max_groups, 3)
+    max_groups = int(os.environ.get('VERIF_SIG_MAXSHRINK', max_groups))     # development aid
+    shrunk = 0
+    for (tags, sig), members in sorted(groups.items()):
         idx, kind, msg = min(members, key=lambda m: len(results[m[0]]['text']))
         prog, inputs = cases[idx]
         small = prog
-        if gi < max_groups:
+        key = f'{label}:{tags}:{sig}'
+        # the key does not depend on the shrunk program: known findings are reported unshrunk (shrinking costs builds + TLC)
+        if shrunk < max_groups and not any(re.fullmatch(m, key) for m in known):
+            shrunk += 1
             for _ in range(rounds):
                 cands = [c for c in F.removal_candidates(small, limit=40) if tagger(c) == tags][:12]
                 if not cands:
@@ -575,7 +585,7 @@ def report_grouped(ctx, label, cases, results, fails, check, tagger, rounds=4, m
                 if nxt is None:
                     break
                 small = nxt
-        ctx.violation(f'{label}:{tags}:{sig}',
+        ctx.violation(key,
                       f'{label}: {len(members)} program(s) [{tags}]; transformed program {"judged " + msg if kind == "output" else kind + ": " + msg[:700]}\n'
                       f'--- original (shrunk) ---\n{F.render(small)}--- options ---\n{small.get("param") or small.get("meta")}\n'
                       f'--- transformed (unshrunk case) ---\n{results[idx].get("newtext", "")[:3000]}',
